@@ -159,7 +159,7 @@ def r2(ctx):
       continue
     if ('self.VARZ_TYPE==VarzType.Gauge', True) in fs:
       wiring.setdefault('Gauge', set()).add(recv[0])
-    elif any(c.startswith('self.VARZ_TYPEin') and t for c, t in POS(fs)):
+    elif any((c.startswith('self.VARZ_TYPEin') or c in ('self.VARZ_TYPE==VarzType.AverageTimer', 'self.VARZ_TYPE==VarzType.AverageRate')) and t for c, t in POS(fs)):
       wiring.setdefault('Percentile', set()).add(recv[0])
     else:
       wiring.setdefault('Other', set()).add(recv[0])
